@@ -14,7 +14,7 @@ import (
 func Storage(lists ...string) *filterlist.RuleStorage {
 	var ls []filterlist.RuleList
 	for i, l := range lists {
-		ls = append(ls, &filterlist.StringRuleList{ID: i + 1, RulesText: l})
+		ls = append(ls, &filterlist.StringRuleList{ID: i, RulesText: l})
 	}
 	s, err := filterlist.NewRuleStorage(ls)
 	if err != nil {
@@ -22,6 +22,27 @@ func Storage(lists ...string) *filterlist.RuleStorage {
 	}
 
 	return s
+}
+
+// StorageSplit spreads the lines over 1..3 string-backed lists (ids 0, 1, 2;
+// the first lines of the lists share offset 0) keeping their relative order
+// inside each list.
+func StorageSplit(rng *rand.Rand, lines []string) *filterlist.RuleStorage {
+	nl := 1 + rng.Intn(3)
+	parts := make([][]string, nl)
+	for i, l := range lines {
+		k := rng.Intn(nl)
+		if i < nl {
+			k = i
+		}
+		parts[k] = append(parts[k], l)
+	}
+	contents := make([]string, nl)
+	for i, p := range parts {
+		contents[i] = Lines(p)
+	}
+
+	return Storage(contents...)
 }
 
 // StorageIDs builds a string-backed storage with the given list ids.
